@@ -16,7 +16,7 @@ from ..core import FAULT, Violation
 from .peer import PeerSim
 
 ACTIVE = ConnectionState.ACTIVE
-LAWS = ["silent", "periodic", "burst", "answer", "answer_wrong", "answer_noid", "mixed", "peer_testreq"]
+LAWS = ["silent", "periodic", "burst", "answer", "answer_wrong", "answer_noid", "mixed", "peer_testreq", "answer_gap"]
 
 
 def make_config(seed, tier="quick"):
@@ -50,6 +50,10 @@ def make_config(seed, tier="quick"):
                                                         2 * hb - 1.0, 2 * hb + 1.5]), 3))
         if answer["delay"] < 0:
             answer["delay"] = 0.0
+    elif law == "answer_gap":
+        # the right answer, but numbered one too high (as if an earlier frame of the peer was lost); the peer
+        # then honours the ResendRequest with a GapFill
+        answer = dict(mode="ok_gap", delay=round(r.choice([0.0, r.uniform(0, 1), r.uniform(0, 1.5) * hb]), 3))
     elif law == "answer_wrong":
         answer = dict(mode="wrong", delay=round(r.uniform(0, 1.2) * hb, 3))
     elif law == "answer_noid":
@@ -107,7 +111,7 @@ class WatchdogSim(PeerSim):
 
     def setup_family(self):
         cfg = self.cfg
-        self.peer.auto.update(logon=True, testreq=False, resend=False, logout=False)
+        self.peer.auto.update(logon=True, testreq=False, resend=cfg["law"] == "answer_gap", logout=False)
         self.peer.next_out = cfg["eut_in"]
         self.peer.on_frame_cb = self.on_peer_frame
         self.t0 = None  # EUT became ACTIVE
@@ -222,6 +226,8 @@ class WatchdogSim(PeerSim):
         self.peer_answers += 1
         if mode == "ok":
             p.send("0", [("112", reqid)], spec={"plan": "answer"})
+        elif mode == "ok_gap":
+            p.send("0", [("112", reqid)], seq=p.next_out + 1, spec={"plan": "answer_gap"})
         elif mode == "wrong":
             self.wrong_sent_at.append(self.loop.time())
             p.send("0", [("112", str(int(reqid or 0) + 13))], spec={"plan": "answer_wrong"})
